@@ -91,7 +91,7 @@ def run_unit_blake(tier):
     syms = {lam, G, a, rho, ps, r, t}
     # translation validation against the real solver (constructed from lambda, G)
     try:
-        pts = alg.sample_points(syms, hyps[:-1] + [t > (r - a) * sp.sqrt(rho / (lam + 2 * G)), ps < (lam + 2 * G / 3) / 20], 3, seed=core.SEED + 3)
+        pts = alg.sample_points(syms, hyps[:-1] + [lam > 0, t > (r - a) * sp.sqrt(rho / (lam + 2 * G)), ps < (lam + 2 * G / 3) / 20], 3, seed=core.SEED + 3)      # lam > 0: the real constructor rejects a non-positive specified modulus
         reqs = [{'cls': BLAKE, 'params': {'lame_mod': float(p_[lam]), 'shear_mod': float(p_[G]), 'cavity_radius': float(p_[a]), 'ref_density': float(p_[rho]), 'pressure_scale': float(p_[ps])},
                  'points': [float(p_[r]), 2 * float(p_[r])], 't': float(p_[t])} for p_ in pts]
         outs = solverkit.native.batch(reqs); n = 0
